@@ -125,7 +125,7 @@ def gen_cases(ctx):
                 c = json.load(open(os.path.join(cdir, fn)))
                 c["profile"] = "corpus"
                 cases.append(c)
-    plan = [("churn", 60, 160), ("dedup", 40, 160), ("holes", 50, 200), ("refresh", 40, 160), ("edge", 25, 80), ("nonmono", 25, 120)]
+    plan = [("churn", 45, 150), ("dedup", 30, 150), ("holes", 40, 180), ("refresh", 30, 150), ("edge", 20, 80), ("nonmono", 20, 100)]
     if ctx.thorough:
         plan = [(p, n * 8, l) for p, n, l in plan] + [("dedup", 40, 900), ("holes", 40, 900), ("refresh", 40, 900)]
     for profile, n, nops in plan:
@@ -335,7 +335,7 @@ THEOREMS = ["C48_get_agrees_with_history", "C48_get_agrees_with_spec_map", "C48_
             "C48_compact_preserves_content", "C48_fast_path_no_holes", "C48_active_len_counts_live", "C48_backward_clock_revives"]
 
 META = {
-    "ready": False,
+    "ready": True,
     "category": "proof",
     "technique": "Rocq refinement proof (slice+index map vs finite map with expiry) + differential execution of the Coq model against the real TTLMap with a scripted clock",
     "text": "The items/order/head structure with Set/Get/Delete/Reset/ActiveLen/evict/maybeCompact is modelled as written; a simulation relation to a finite map key -> (value, expireAt) is proved to be preserved by every operation for every history with a non-decreasing clock, hence every Get returns exactly the last Set value younger than the TTL with no later Delete/Reset; eviction only removes expired mappings and compaction (both paths) preserves the content.",
